@@ -144,6 +144,24 @@ def r_linear(ctx, rule='R-BQ-LINEAR'):
         ctx.check(okn, rule, ty.split('::')[-1] + '/normalized', nd.loc() if nd else '', 'reported = raw / declared dimension', '%s::normalized_distance is not raw / dimensions' % ty.split('::')[-1])
 
 
+def r_declared_dimension(ctx, rule='R-BQ-LINEAR'):
+    """4h/d and 2h/d are taken over the *declared* dimension: every call of D::normalized_distance in the library passes the
+    index's `dimensions` (never the length of a decoded -- padded -- vector)"""
+    F = ctx.F
+    n = 0
+    for f in F.lib_fns():
+        for c in f.calls():
+            if not c.callee.endswith('Distance::normalized_distance') or len(c.args) != 2:
+                continue
+            n += 1
+            d = strip(c.arg_term(1))
+            good = (d[0] == 'field' and d[2] == 'dimensions' and root(d)[0] == 'arg') or \
+                   (d[0] == 'call' and d[1].endswith(('Reader::<\'t, D>::dimensions', '::dimensions')) and root(d[2][0])[0] == 'arg' if d[0] == 'call' and d[2] else False)
+            ctx.check(bool(good), rule, '%s/declared-dimension#%d' % (f.path, n), c.loc(), 'normalised by the declared dimension',
+                      '`%s` normalises a distance by %s instead of the index\'s declared dimension: quantised vectors are padded to a multiple of 64, so 4h/d and 2h/d would be off for every other dimension' % (f.path, show(d)[:60]))
+    ctx.floor(rule, 'calls of D::normalized_distance', n, 1)
+
+
 def r_dot(ctx, rule='R-BQ-DOT'):
     F = ctx.F
     f = F.fn('spaces::simple::dot_product_binary_quantized')
@@ -195,6 +213,26 @@ def r_dot(ctx, rule='R-BQ-DOT'):
                         good = num[0] == 'call' and num[1] == 'spaces::simple::dot_product_binary_quantized' and vec_args(num, bd) and den[0] == 'binop' and den[1] == 'Mul' \
                             and all(strip(x)[0] == 'field' and strip(x)[2] == 'norm' for x in (den[2], den[3]))
         ctx.check(good, rule, 'BinaryQuantizedCosine/built', bd.loc(), '(1 - dot/(|p||q|))/2, 0 when the norm product vanishes', 'BinaryQuantizedCosine::built_distance is not (1 - dot/(|p||q|))/2')
+        # the guard: the quotient is computed exactly when the *denominator* (norm product) is non-zero
+        okguard = False
+        seen = []
+        if good:
+            den_c = strip_all(den)
+            for b, k, t in rets:
+                if strip(t)[0] == 'const':
+                    continue
+                for s0, x0, e in paths.controlling_conds(bd, b):
+                    if e[0] != 'bool':
+                        continue
+                    c0 = strip(e[1])
+                    if c0[0] == 'binop' and c0[1] in ('Ne', 'Gt', 'Eq', 'Le', 'Lt', 'Ge'):
+                        lhs, rhs = strip_all(c0[2]), strip(c0[3])
+                        seen.append(show(c0)[:60])
+                        zero_or_eps = rhs[0] == 'const' and isinstance(rhs[2], int) and (f32_of_bits(rhs[2]) == 0.0 or 0.0 < f32_of_bits(rhs[2]) < 1e-5)
+                        if lhs == den_c and zero_or_eps and (c0[1], e[2]) in (('Ne', True), ('Gt', True), ('Eq', False), ('Le', False)):
+                            okguard = True
+        ctx.check(okguard, rule, 'BinaryQuantizedCosine/guard', bd.loc(), 'the quotient is taken iff the norm product is non-zero',
+                  'BinaryQuantizedCosine::built_distance does not guard the division by testing the norm product itself (tests seen: %s): orthogonal patterns (dot = 0) or vanishing norms get the wrong value' % seen)
 
 
 def r_iter(ctx, rule='R-BQ-ITER'):
@@ -513,6 +551,7 @@ def run(ctx):
     ctx.assumptions = ['x86_64 little-endian host']
     ctx.not_analysed = ['from_slice_neon / to_vec_neon (aarch64 only, not compiled on this host)']
     r_linear(ctx)
+    r_declared_dimension(ctx)
     r_dot(ctx)
     r_iter(ctx)
     r_pack_bits(ctx)
